@@ -89,6 +89,9 @@ class FuncKinds:
                 self.axis[(nm, k)].append(Belief(d, f.node, f"role {r}"))
             if ek:
                 self.elem[nm].append(Belief(ek, f.node, f"role {r}"))
+            # the repository spells the multitask arrays in capitals (W, XW, Y: one column per task)
+            if r in ("W", "W0", "XW", "XW0", "Y") and nm[:1].isupper() and len(doms) == 1:
+                self.axis[(nm, 1)].append(Belief("T", f.node, f"role {r} (multitask spelling)"))
         # helpers outside the solve call graph (skglm.utils.data): the group structure and
         # the design are recognised by their interface names
         if f.module.name == "skglm.utils.data":
